@@ -11,6 +11,7 @@ CONSTANTS
   FixFirstRep = FALSE
   FixShort = FALSE
   FixNilReq = FALSE
+  FixBadReq = FALSE
 CONSTRAINT HighWater
 INVARIANTS TypeOK OwnIndexOnly CorrectModuloKnown
 POSTCONDITION TraceAccepted
